@@ -20,7 +20,7 @@ Record cfg := {
 Record cstate := {
   c_dwell : Q;                  (* _total_dwell_time *)
   c_sh : bool;                  (* _shutter_on *)
-  c_loaded : list N;            (* _loaded_files (stems) *)
+  c_loaded : list N;            (* _loaded_files *)
   c_dvars : list N;             (* _dvars (lower-cased names) *)
   c_pre : list tok              (* DVAR lines, appendleft *)
 }.
@@ -147,7 +147,10 @@ Definition exit_rot (c : cfg) (st : cstate) : cstate * list stmt :=
   (st1, [rot_g1 c; SI (TG84 false)] ++ e1).
 
 (* a file name argument, decomposed by the harness with pathlib *)
-Record fname := { f_arg : N; f_base : N; f_stem : N; f_pgm : bool (* suffix is exactly .pgm *) }.
+(* femto tracks loaded programs by stem; every accepted name has the suffix .pgm exactly, so stems and
+   file names are in bijection and the model tracks the file name (f_base), which is what the
+   controller sees in REMOVEPROGRAM / FARCALL *)
+Record fname := { f_arg : N; f_base : N; f_pgm : bool (* suffix is exactly .pgm *) }.
 
 Definition mem (x : N) (l : list N) : bool := existsb (N.eqb x) l.
 Fixpoint remove1 (x : N) (l : list N) : list N :=
@@ -155,23 +158,23 @@ Fixpoint remove1 (x : N) (l : list N) : list N :=
 
 Definition do_load (st : cstate) (f : fname) (task : Z) : res :=
   if negb (f_pgm f) then (st, [], Raised VE)
-  else (st_loaded st (c_loaded st ++ [f_stem f]), [SI (TLoad task (f_arg f) (f_base f))], Ok).
+  else (st_loaded st (c_loaded st ++ [f_base f]), [SI (TLoad task (f_arg f) (f_base f))], Ok).
 
 Definition do_remove (st : cstate) (f : fname) (task : Z) : res :=
   if negb (f_pgm f) then (st, [], Raised VE)
-  else if negb (mem (f_stem f) (c_loaded st)) then (st, [], Raised FNF)
-  else (st_loaded st (remove1 (f_stem f) (c_loaded st)),
+  else if negb (mem (f_base f) (c_loaded st)) then (st, [], Raised FNF)
+  else (st_loaded st (remove1 (f_base f) (c_loaded st)),
         [SI (TStop task); SI (TWait task); SI (TRemove (f_base f))], Ok).
 
 Definition do_farcall (c : cfg) (st : cstate) (f : fname) : res :=
   if negb (f_pgm f) then (st, [], Raised VE)
-  else if negb (mem (f_stem f) (c_loaded st)) then (st, [], Raised FNF)
+  else if negb (mem (f_base f) (c_loaded st)) then (st, [], Raised FNF)
   else let '(st1, e1) := do_dwell st (short_p c) in
        (st1, e1 ++ [SI (TFarcall (f_arg f) (f_base f))], Ok).
 
 Definition do_buffered (c : cfg) (st : cstate) (f : fname) (task : Z) : res :=
   if negb (f_pgm f) then (st, [], Raised VE)
-  else if negb (mem (f_stem f) (c_loaded st)) then (st, [], Raised FNF)
+  else if negb (mem (f_base f) (c_loaded st)) then (st, [], Raised FNF)
   else let '(st1, e1) := do_dwell st (short_p c) in
        (st1, e1 ++ [SI (TBuffered task (f_arg f) (f_base f))], Ok).
 
@@ -208,7 +211,10 @@ Definition close_loop (st0 : cstate) (n : Z) (wrap : list stmt -> stmt) (r : res
   let '(st1, e1, o1) := r in
   (st_dwell st1 (Qred (c_dwell st1 + inject_Z (n - 1) * (c_dwell st1 - c_dwell st0))), [wrap e1], o1).
 
-Fixpoint exec (c : cfg) (o : op) (st : cstate) : res :=
+Section Exec.
+Context (c : cfg).
+
+Fixpoint exec (o : op) (st : cstate) : res :=
   match o with
   | OWrite pts => do_write c st pts
   | OMoveTo x y z sp => do_move_to c st x y z sp
@@ -232,7 +238,7 @@ Fixpoint exec (c : cfg) (o : op) (st : cstate) : res :=
           if n <=? 0 then (st, [], Raised VE)
           else close_loop st n (SRep n)
                  ((fix el (l : list op) (st : cstate) : res :=
-                     match l with [] => (st, [], Ok) | o :: r => seq (exec c o st) (el r) end) body st)
+                     match l with [] => (st, [], Ok) | o :: r => seq (exec o st) (el r) end) body st)
       end
   | OFor v n body =>
       match n with
@@ -245,20 +251,21 @@ Fixpoint exec (c : cfg) (o : op) (st : cstate) : res :=
                    if negb (mem v (c_dvars st)) then (st, [], Raised VE)
                    else close_loop st n (SFor v 0 (n - 1))
                           ((fix el (l : list op) (st : cstate) : res :=
-                              match l with [] => (st, [], Ok) | o :: r => seq (exec c o st) (el r) end) body st)
+                              match l with [] => (st, [], Ok) | o :: r => seq (exec o st) (el r) end) body st)
                end
       end
   | OAxisRot explicit body =>
       let '(st1, e1) := enter_rot c st explicit in
       let '(st2, e2, o2) :=
         (fix el (l : list op) (st : cstate) : res :=
-           match l with [] => (st, [], Ok) | o :: r => seq (exec c o st) (el r) end) body st1 in
+           match l with [] => (st, [], Ok) | o :: r => seq (exec o st) (el r) end) body st1 in
       let '(st3, e3) := exit_rot c st2 in
       (st3, e1 ++ e2 ++ e3, o2)
   end.
 
-Fixpoint exec_list (c : cfg) (l : list op) (st : cstate) : res :=
-  match l with [] => (st, [], Ok) | o :: r => seq (exec c o st) (exec_list c r) end.
+Fixpoint exec_list (l : list op) (st : cstate) : res :=
+  match l with [] => (st, [], Ok) | o :: r => seq (exec o st) (exec_list r) end.
+End Exec.
 
 (* ---- the session:  with PGMCompiler(...) as G: <ops>  ---- *)
 
